@@ -145,6 +145,16 @@ CLAIMED = {
         "DESIGN.md 4 C18",
         "Question._has_stty_available is patched to False from outside (no stty reachable); termination by read / write budgets.",
     ),
+    "C19": (
+        "schedule enumeration: a deterministic baton-passing scheduler + virtual clock substituted for the component's threading / time module objects; stateless depth-first enumeration of all schedules within a delay bound, Hypothesis-drawn schedules beyond it, writes replayed on a terminal emulator; exhaustive manual-mode call sequences",
+        "The spinner thread and the caller's thread (set_message / work / raise inside 'with indicator.auto()') are run under every "
+        "schedule with at most 2 (thorough 3) deviations from the default policy at the granularity of stream writes, sleeps, event and "
+        "thread operations, plus random schedules: the spinner is always stopped and joined, the body's exception propagates, the end "
+        "message is the last frame and the terminal line never holds two frames; manual mode: all call sequences with clock ticks, "
+        "throttle interval and frame content.",
+        "DESIGN.md 4 C19",
+        "The module attributes progress_indicator.threading / .time are rebound from outside (no source hook); CPython's own scheduler is not examined.",
+    ),
     "C20": (
         "Hypothesis-generated source files and exceptions rendered by ExceptionTrace, validity predicates on the rendered text (message, numbering, marker, verbatim source lines against the generated source, ignore filter); corpus sweep of the highlighter",
         "Exceptions raised from generated on-disk sources (filler from an adversarial line pool, CRLF, missing trailing newline), exec'd and "
